@@ -412,8 +412,23 @@ func trieGapsAtDepth[K kad.Key[K], D any](t *trie.Trie[bitstr.Key, D], depth int
 		} else if b.IsLeaf() {
 			if b.HasKey() {
 				k := *b.Key()
-				if len(k) > depth+1 {
-					siblingPrefixes := SiblingPrefixes(k)[depth+1:]
+				from := depth + 1
+				if from < len(target) {
+					// Leaf reached above the target's depth: only the part of the
+					// keyspace under target matters.
+					if IsBitstrPrefix(k, target) {
+						// target is covered by k
+						continue
+					}
+					if !IsBitstrPrefix(target, k) {
+						// k is outside of target, the whole target is a gap
+						gaps = append(gaps, target[depth:])
+						continue
+					}
+					from = len(target)
+				}
+				if len(k) > from {
+					siblingPrefixes := SiblingPrefixes(k)[from:]
 					sortBitstrKeysByOrder(siblingPrefixes, order)
 					for _, siblingPrefix := range siblingPrefixes {
 						gaps = append(gaps, siblingPrefix[depth:])
